@@ -29,6 +29,11 @@ func checkC01(c *Check) {
 		g := NewGen(seed, c01Cfg(c))
 		cases = append(cases, BashCase{Key: fmt.Sprintf("random/c01/seed=%d", seed), Prog: g.Program(), NonTrivial: nontrivial})
 	}
+	if c.Thorough() {
+		oracleSelfCheck(c, cases, 3000)
+	} else {
+		oracleSelfCheck(c, cases, 300)
+	}
 	runProbes(c, bashProbeJudge)
 	runBashCases(c, cases)
 }
